@@ -282,11 +282,18 @@ class Normalizer(ast.NodeTransformer):
         if len(node.targets) == 1 and isinstance(node.targets[0], (ast.Tuple, ast.List)) \
                 and isinstance(node.value, (ast.Tuple, ast.List)) \
                 and len(node.targets[0].elts) == len(node.value.elts) \
-                and all(isinstance(t, ast.Name) for t in node.targets[0].elts) \
+                and all(isinstance(t, ast.Name) or (isinstance(t, ast.Attribute) and _simple(t.value))
+                        for t in node.targets[0].elts) \
                 and not any(isinstance(v, ast.Starred) for v in node.value.elts):
-            tnames = {t.id for t in node.targets[0].elts}
+            tnames = {t.id for t in node.targets[0].elts if isinstance(t, ast.Name)}
             vnames = {x.id for v in node.value.elts for x in ast.walk(v) if isinstance(x, ast.Name)}
-            if not (tnames & vnames):
+            # attribute targets: no value may read a field of that name (x.a, x.b = x.b, x.a must stay parallel)
+            tattrs = {t.attr for t in node.targets[0].elts if isinstance(t, ast.Attribute)}
+            vattrs = {x.attr for v in node.value.elts for x in ast.walk(v) if isinstance(x, ast.Attribute)}
+            pure_vals = all(not isinstance(x, ast.Call) for v in node.value.elts for x in ast.walk(v)) or not tattrs
+            if not (tnames & vnames) and (not tattrs or (len(node.targets[0].elts) == 1 or
+                                                          not (tattrs & vattrs) or
+                                                          self._distinct_owners(node))) and pure_vals:
                 out = []
                 for t, v in zip(node.targets[0].elts, node.value.elts):
                     a = ast.Assign(targets=[t], value=v, type_comment=None)
@@ -294,6 +301,13 @@ class Normalizer(ast.NodeTransformer):
                 self.count += 1
                 return out
         return node
+
+    @staticmethod
+    def _distinct_owners(node) -> bool:
+        """`a.x, a.y = b.x, b.y`: the objects written (a) are never the objects read (b) by name"""
+        towners = {ast.unparse(t.value) for t in node.targets[0].elts if isinstance(t, ast.Attribute)}
+        vowners = {ast.unparse(x.value) for v in node.value.elts for x in ast.walk(v) if isinstance(x, ast.Attribute)}
+        return not (towners & vowners)
 
     # ------------------------------------------------------------------ N9: annotated local -> plain assignment
     def visit_AnnAssign(self, node):
@@ -320,6 +334,22 @@ class Normalizer(ast.NodeTransformer):
             self.count += 1
             v = node.left.value == node.comparators[0].value
             return ast.copy_location(ast.Constant(value=v if isinstance(node.ops[0], ast.Eq) else not v), node)
+        # `None is None`, `int is None` (a function value handed to an inlined helper and tested there)
+        if len(node.ops) == 1 and isinstance(node.ops[0], (ast.Is, ast.IsNot)):
+            l, r = node.left, node.comparators[0]
+            def kind(e):
+                if isinstance(e, ast.Constant) and e.value is None:
+                    return 'none'
+                if isinstance(e, ast.Name) and e.id in ('int', 'str', 'float', 'bool', 'list', 'dict', 'set', 'tuple', 'len'):
+                    return 'callable'
+                if isinstance(e, ast.Lambda):
+                    return 'callable'
+                return None
+            kl, kr = kind(l), kind(r)
+            if kl and kr and 'none' in (kl, kr):
+                same = kl == kr
+                self.count += 1
+                return ast.copy_location(ast.Constant(value=same if isinstance(node.ops[0], ast.Is) else not same), node)
         return node
 
     def visit_IfExp(self, node):
